@@ -41,4 +41,19 @@ TEXTS = {
   "note": "Trusted base: own semver comparator (cross-checked against the default comparer on the grid). Ranges after the first containing one are not evaluated by design and not judged; a range with no bound at all is counted, not judged; semver spellings on which parsers legitimately differ are kept off the judged grid.",
   "technique": "runtime monitoring: executable interval reference model, exhaustive small range sets + permutation metamorphic checks",
  },
+ "C06": {
+  "text": "Differential monitor with an independent reference codec (harness/refpkg): for every package type reachable from LookupPackage (+CURCLOSE, OPTIONCMD), narrow and wide, all option combinations, strings at 0/1/max-1/max of each prefix, every capability bit and seeded subsets, formats over all data types x status bits, rows/params over every decodable type, and login records with each field at every length 0..31: (1) library write -> library read reproduces the reflection dump and consumes exactly the bytes written; (2) every length/count field located by the reference decoder equals what follows; (3) reference-encoded server packages decode to the same fields; (4) the reference decoder recovers client packages field by field; (5) login record by absolute offsets, oversized fields rejected. 33k quick / 1.8M thorough evaluations. Held-on-observed, known findings for BLOB.",
+  "note": "Trusted base: harness/refpkg (my reading of TDS 5.0; where unsure - CURUPDATE statement block, DYNAMIC statement block, CURDECLARE column count, BLOB layout - only writer against reader is judged), canon dump. Data types without a value decoder (SINT1, INTERVAL, BOUNDARY, SENSITIVITY) are tested as formats only.",
+  "technique": "runtime monitoring: differential testing against an independent reference encoder/decoder + write/read round trip with byte accounting",
+ },
+ "C07": {
+  "text": "Every proper prefix of ~1.9k (quick) / ~60k (thorough) valid encodings (library-written and reference-written, all package types and variants, rows/params over all data types) is parsed with a fresh package on a PacketQueue holding exactly the prefix: the result must satisfy errors.Is(err, ErrNotEnoughBytes) - not nil, not another error, no panic - and parsing the completed bytes afterwards must give the same dump as an undisturbed parse. 340k quick / 11.3M thorough prefix parses. Exhaustive over prefix lengths for encodings up to 4 KiB; held-on-observed.",
+  "note": "Trusted base: the C06 generators and reference encoder for valid encodings; encodings the library itself cannot read back (C06's subject) are skipped and counted. BLOB columns are left out.",
+  "technique": "runtime monitoring: exhaustive prefix enumeration with an error-class oracle and a resume-equivalence check",
+ },
+ "C11": {
+  "text": "Event-log monitor (one atomic sequence counter; hooks log inside the reader, the consumer logs after receiving) over 5k quick / 400k thorough cases of 1-3 responses with 0-6 EED and ENVCHANGE packages at every package boundary, 5 packetisation classes, 0-3 message and environment hooks registered before or between responses, and a consumer running concurrently with the reader (NextPackage loop or NextPackageUntil with a failing callback at any index). Checks: every non-informational message to every registered hook exactly once in registration/arrival order; hook(e) before any later package of the response is received; every ENVCHANGE member to every hook once with (type, old, new); PacketSize() equals the last announced size; ENVCHANGE / informational EED never delivered; callback failure matches errors.Is and carries the messages received so far in order. Thorough adds a -race leg. Held-on-observed.",
+  "note": "Trusted base: srv encoder, the event log. Both readings of 'received so far' for the carried message list are accepted; one NextPackageUntil call per response.",
+  "technique": "runtime monitoring: online event log + offline exactly-once/ordering checker over recorded executions",
+ },
 }
